@@ -279,9 +279,20 @@ func VxDataWrite() {
 	} else {
 		vxAssert("failed write leaves the current version unchanged", m != nil && m.CurrentVersion == pre.CurrentVersion && len(m.Versions) == len(pre.Versions))
 	}
+	if m != nil {
+		// also on plain storage: whatever the (unchanged) metadata lists as a live version must still be readable
+		for v := 1; v <= current; v++ {
+			if m.Versions[uint64(v)] != nil {
+				vxAssert("after a failed write every version the metadata lists still has its data", vxE.committed.find("versions/foo/"+strconv.Itoa(v)) >= 0)
+			}
+		}
+	}
 	if transactional {
 		vxAssert("transactional storage: a failed write commits nothing", vxE.commits == 0)
 		same := len(before.keys) == len(vxE.committed.keys)
+		for i := range before.keys {
+			same = same && i < len(vxE.committed.keys) && before.keys[i] == vxE.committed.keys[i] && string(before.vals[i]) == string(vxE.committed.vals[i])
+		}
 		vxAssert("transactional storage: committed state is untouched by a failed write", same)
 	}
 }
